@@ -33,7 +33,18 @@ func NewDisconnectMessage() *DisconnectMessage {
 
 // Decode decodes the message.
 func (m *DisconnectMessage) Decode(src []byte) (int, error) {
-	return m.header.decode(src)
+	n, err := m.header.decode(src)
+	if err != nil {
+		return n, err
+	}
+
+	// A DISCONNECT packet has no variable header and no payload. Anything else
+	// is a malformed packet and must not count as a clean disconnect.
+	if m.remlen != 0 {
+		return n, fmt.Errorf("disconnect/Decode: Remaining length (%d) must be 0", m.remlen)
+	}
+
+	return n, nil
 }
 
 // Encode encodes the message.
